@@ -923,6 +923,12 @@ fn print_line(rng: &mut Rng) -> Vec<Stmt> {
             2 => Expr::Call(Builtin::Tab, vec![Expr::int(*rng.pick(&[0, 1, 13, 14, 15, 27, 28, 29, 40, 255, -1, -14, -5, -255]))]),
             3 => Expr::Call(Builtin::Spc, vec![Expr::Int(*rng.pick(&[0i16, 1, 13, 14, 255]))]),
             4 => Expr::Call(Builtin::Pos, vec![Expr::Int(0)]),
+            // the Integer limits (NOT 32767 is the Integer -32768, which no literal spells)
+            5 if rng.pct(15) => match rng.below(3) {
+                0 => Expr::Not(Box::new(Expr::Int(32767))),
+                1 => Expr::int(-32767),
+                _ => Expr::Int(32767),
+            },
             5 => Expr::int(rng.range(-120, 32000) as i32),
             6 => Expr::Sng(rng.range(0, 400) as f32 * 0.25),
             7 => Expr::Dbl(rng.range(0, 4000) as f64 * 0.125),
